@@ -7,12 +7,14 @@ import (
 	"os"
 	"runtime"
 	"strings"
+	"sync/atomic"
 	"testing"
 	"time"
 
 	http2 "github.com/dgrr/http2"
 	"github.com/valyala/fasthttp"
 
+	"h2v/fakeconn"
 	"h2v/rt"
 	"h2v/vf"
 	"h2v/wire"
@@ -43,6 +45,8 @@ func TestC12(t *testing.T) {
 		switch h := vf.Hash("c12-family", id); {
 		case h%300 == 7:
 			c12WedgedClose(r, t, id, r.Rand(id))
+		case h%20 == 3:
+			c12Handshake(r, t, id, r.Rand(id))
 		case h%6 == 5:
 			c12RoundTrip(r, t, id, r.Rand(id))
 		default:
@@ -460,3 +464,120 @@ func c12Scenario(r *vf.Run, t *testing.T, id string, rng *rand.Rand) {
 }
 
 var _ = fasthttp.StatusOK
+
+// c12Handshake: whatever a server sends, or does not send, instead of its connection preface: Handshake returns (an
+// error or nil) unless the server is silent, a silent server is ended by Close, nothing panics, requests handed to
+// the connection afterwards are resolved, and no goroutine stays behind.
+func c12Handshake(r *vf.Run, t *testing.T, id string, rng *rand.Rand) {
+	kind := []string{"eof", "garbage", "cut-settings", "other-frame-first", "invalid-setting", "ack-first", "oversized-settings", "settings-on-stream-1", "silence", "settings-then-eof", "settings-then-garbage"}[rng.Intn(11)]
+	replay := map[string]any{"family": "handshake", "kind": kind}
+	failed := false
+	fail := func(rule, detail string) {
+		if !failed {
+			r.Fail("C12."+rule, id, detail, nil, replay)
+		}
+		failed = true
+	}
+	res := rt.RunBubble(t, id, 25*time.Second, func() {
+		sut, peer := fakeconn.Pair(1<<20, 1<<20)
+		var pre []byte
+		switch kind {
+		case "garbage":
+			pre = make([]byte, 1+rng.Intn(300))
+			rng.Read(pre)
+		case "cut-settings":
+			full := rt.SettingsFrame(wire.Setting{ID: 3, Val: 100}, wire.Setting{ID: 4, Val: 65535})
+			pre = full[:rng.Intn(len(full))]
+		case "other-frame-first":
+			pre = [][]byte{rt.Ping(false, "firstfrm"), rt.WindowUpdate(0, 100), rt.GoAway(0, 0, "no"), wire.Frame(nil, wire.THeaders, wire.FEndHeaders|wire.FEndStream, 1, []byte{0x88}, -1), wire.Frame(nil, 0x42, 0, 0, []byte("ext"), -1)}[rng.Intn(5)]
+		case "invalid-setting":
+			pre = rt.SettingsFrame([]wire.Setting{{ID: 2, Val: 2}, {ID: 4, Val: 1 << 31}, {ID: 5, Val: 100}, {ID: 5, Val: 1 << 24}}[rng.Intn(4)])
+		case "ack-first":
+			pre = rt.SettingsAck()
+		case "oversized-settings":
+			var ss []wire.Setting
+			for i := 0; i < 3000+rng.Intn(3000); i++ {
+				ss = append(ss, wire.Setting{ID: uint16(100 + i%50), Val: uint32(i)})
+			}
+			pre = rt.SettingsFrame(ss...)
+		case "settings-on-stream-1":
+			pre = wire.Frame(nil, wire.TSettings, 0, 1, nil, -1)
+		case "settings-then-eof", "settings-then-garbage":
+			pre = rt.SettingsFrame(wire.Setting{ID: 3, Val: 100})
+			if kind == "settings-then-garbage" {
+				g := make([]byte, 1+rng.Intn(100))
+				rng.Read(g)
+				pre = append(pre, g...)
+			}
+		}
+		peer.Write(pre)
+		if kind != "silence" && kind != "settings-then-garbage" && rng.Intn(2) == 0 || kind == "eof" || kind == "settings-then-eof" || kind == "cut-settings" {
+			peer.CloseWrite()
+		}
+		go func() { // the server side drains whatever the client writes
+			buf := make([]byte, 4096)
+			for {
+				if _, err := peer.Read(buf); err != nil {
+					return
+				}
+			}
+		}()
+		c := http2.NewConn(sut, http2.ConnOpts{PingInterval: time.Hour})
+		var hsDone atomic.Bool
+		var hsErr error
+		go func() { hsErr = c.Handshake(); hsDone.Store(true) }()
+		rt.Wait()
+		time.Sleep(time.Second)
+		rt.Wait()
+		if hsDone.Load() && kind == "silence" && hsErr == nil {
+			fail("handshake-without-server-preface", "Handshake reported success although the server has not sent a byte")
+		}
+		if !hsDone.Load() {
+			// the client is still waiting for (the rest of) a frame, which is its right as long as the server stays
+			// connected: Close must end the wait
+			r.Inc("handshakes_ended_by_close", 1)
+			c.Close()
+			rt.Wait()
+			time.Sleep(time.Second)
+			rt.Wait()
+		}
+		if !hsDone.Load() {
+			fail("handshake-never-returns", fmt.Sprintf("kind %s: Handshake has not returned although the connection was closed a virtual second ago", kind))
+		}
+		// whatever Handshake said, a request handed to the connection now must be resolved
+		req, resp := &fasthttp.Request{}, &fasthttp.Response{}
+		req.SetRequestURI("https://h.example/after-handshake")
+		ctx := &http2.Ctx{Request: req, Response: resp, Err: make(chan error, 1)}
+		var got atomic.Bool
+		go func() { c.Write(ctx); <-ctx.Err; got.Store(true) }()
+		rt.Wait()
+		peer.Close()
+		rt.Wait()
+		time.Sleep(5 * time.Second)
+		rt.Wait()
+		c.Close()
+		rt.Wait()
+		time.Sleep(2 * time.Second)
+		rt.Wait()
+		if hsDone.Load() && hsErr == nil && !got.Load() {
+			fail("request-stranded", fmt.Sprintf("kind %s: Handshake succeeded, the server then disconnected and the connection was closed, but the request handed to it was never resolved", kind))
+		}
+		if left := rt.GoroutinesOf(id, "github.com/dgrr/http2.(*Conn)"); len(left) > 0 && hsDone.Load() && hsErr == nil {
+			fail("goroutine-leak", fmt.Sprintf("kind %s: goroutines of the connection are left after disconnect and Close:\n%s", kind, strings.Join(left, "\n")))
+		}
+		r.Mark("handshake_outcomes", fmt.Sprintf("%s/err=%v", kind, hsErr != nil))
+	})
+	switch {
+	case res.TimedOut && len(res.MutexStuck) > 0:
+		fail("deadlock", "handshake family: goroutines waiting for a mutex when the watchdog fired:\n"+strings.Join(res.MutexStuck, "\n"))
+	case res.TimedOut:
+		r.Inconclusive("real-time watchdog expired inside a bubble")
+	case res.Panic != "":
+		fail("panic", res.Panic+"\n"+res.PanicStack)
+	}
+	r.Mark("families", "handshake/"+kind)
+	r.Eval(vf.Hash("handshake", kind), true)
+	if r.WantSample() {
+		r.Sample(replay)
+	}
+}
